@@ -136,6 +136,7 @@ type Frame struct {
 	curResTypes *types.Tuple
 	selfTerm string
 	parent   *Frame
+	recovered bool
 	private  []*Loc // non-escaping local cells: untouched by callees
 	siteKeys map[ssa.Instruction]string
 	defers   []*ssa.Defer
